@@ -142,10 +142,10 @@ def sh_screen(ps, c, g, r0=None, **kw):
     return numpy.asarray(s), gen
 
 
-def sh_screen_intseed(ps, c, g, r0=None, **kw):
-    """ft_sh_phase_screen called with an int seed whose stream is g"""
+def sh_screen_intseed(ps, c, g, r0=None, seed_value=12345, **kw):
+    """ft_sh_phase_screen called with an int seed (any non-Generator seed value) whose stream is g"""
     with seeded_stream(g) as ctx:
-        s = ps.ft_sh_phase_screen(*_args(c, r0), seed=12345, **kw)
+        s = ps.ft_sh_phase_screen(*_args(c, r0), seed=seed_value, **kw)
     gen = FakeGen(g)
     gen.pos = max([x.pos for x in ctx.gens] + [0])
     gen.overrun = any(x.overrun for x in ctx.gens)
@@ -521,8 +521,13 @@ def oracle_config(chk, ps, c, nprng, do_sh=True):
 
 PARAM_TYPES = [("int", int, TOL), ("numpy.int64", numpy.int64, TOL), ("numpy.int32", numpy.int32, TOL),
                ("numpy.float64", numpy.float64, TOL), ("0-d array", numpy.array, TOL),
-               # single-precision scalars: the sub-harmonic part is then evaluated partly in float32 (observed 3e-8 relative)
-               ("numpy.float32", numpy.float32, 1e-5)]
+               # small integer types: 3**p·N·delta overflowed in an 8-bit pixel size (finding param-type:ft_sh_phase_screen:numpy.uint8,
+               # fixed by 23d5043: both functions convert their parameters to Python numbers first)
+               ("numpy.uint8", lambda v: numpy.uint8(min(int(v), 200)), TOL), ("numpy.int8", lambda v: numpy.int8(min(int(v), 100)), TOL),
+               ("numpy.uint16", numpy.uint16, TOL),
+               # single-precision scalars give the double-precision screen of the value they hold (since 23d5043 in the sub-harmonic
+               # function too; observed: bit-identical)
+               ("numpy.float32", numpy.float32, TOL)]
 
 
 def grid_scan(chk, ps, quick):
@@ -600,6 +605,422 @@ def grid_scan(chk, ps, quick):
                     break
 
 
+
+# ------------------------------------------------------------------------------------------ round 5: generator audit
+WORST = {}
+
+
+def track(key, value, tol):
+    """largest observed value of a toleranced quantity of the round-5 sections as a fraction of its tolerance (reported in the notes)"""
+    if tol > 0 and value == value:
+        WORST[key] = max(WORST.get(key, 0.0), float(value) / float(tol))
+
+def psd_of_wave(c, kx, ky):
+    """PSD·Δf² of the stated spectrum at the grid frequency (kx, ky)·Δf (integer wave numbers wrapped to [-N/2, N/2))"""
+    N = c["N"]
+    df = 1.0 / (N * c["delta"])
+    kx, ky = ((kx + N // 2) % N) - N // 2, ((ky + N // 2) % N) - N // 2
+    if kx == 0 and ky == 0:
+        return 0.0
+    with numpy.errstate(all="ignore"):
+        return float(psd_text((kx * kx + ky * ky) * df * df, c["r0"], c["L0"], c["l0"]) * df * df)
+
+
+def sparse_probe(chk, ps, c, npos, nprng, key, sh_rows=0):
+    """clauses that are affordable on ANY grid (256², 512², sizes with large prime factors, …), where the full linear map
+    (2N² unit draws) is not: the screens of a FEW unit stream positions.  Invariant under permutations / sign flips of the
+    stream (which position feeds which coefficient is HOW): every such screen must be ONE real plane wave of the N-grid
+    (2-D DFT supported on a pair ±k, k found from the screen itself), and its mean square must be PSD(|k|Δf)·Δf²/2 (PSD·Δf² for
+    the four self-conjugate k; 0 is allowed only there and at the removed zero frequency).  Plus, with dense draws:
+    superposition, zero draw, zero spatial mean, exact r0^(-5/6) scaling, FFT-object branch.
+    sh_rows > 0: also the 54 sub-harmonic stream positions of ft_sh_phase_screen (model partition: the last 54; a different
+    stream length is reported by `probe` as broken correspondence and the block is skipped): their covariance on sh_rows
+    random pixels against the 24 sub-harmonic frequencies, mean removed."""
+    N = c["N"]
+    nh = 2 * N * N
+    mid = N // 2
+    tag = "N=%d r0=%.9g delta=%.9g L0=%.9g l0=%.9g" % (N, c["r0"], c["delta"], c["L0"], c["l0"])
+    rep = dict(c, clause="sparse")
+
+    def bad(fkey, what, **more):
+        chk.fail("%s:%s" % (fkey, key), what + " at " + tag, dict(rep, **more))
+
+    chk.oracle_cases += 1
+    chk.count("oracle:sparse:%s" % key)
+    chk.case(("sparse", key, repr(sorted(c.items()))))
+    nd = probe(chk, hi_screen, ps, c, "ft_phase_screen", nh, tag)
+    if nd is None or nd < 2:
+        return
+    # stream positions: the model's special samples (zero frequency, Nyquist row / column / corner, neighbours of the zero
+    # frequency = lowest frequencies, last sample) in both halves of the stream, and random ones
+    special = [(mid, mid), (0, 0), (0, mid), (mid, 0), (mid, mid + 1), (mid + 1, mid), (mid - 1, mid + 1), (N - 1, N - 1), (0, 1), (1, 0)]
+    pos = []
+    for (i, j) in special:
+        if 0 <= i < N and 0 <= j < N:
+            pos += [i * N + j, N * N + i * N + j]
+    pos = [e for e in dict.fromkeys(pos) if e < nd][:4 * npos] + [chk.rng.randrange(nd) for _ in range(npos)]
+    df2 = (1.0 / (N * c["delta"])) ** 2
+    layout_ok, zero_cols, top = True, [], 0.0
+    for e in dict.fromkeys(pos):
+        g = numpy.zeros(nd)
+        g[e] = 1.0
+        with numpy.errstate(all="ignore"):
+            s = numpy.asarray(hi_screen(ps, c, g)[0], dtype=float)
+        if s.shape != (N, N) or not numpy.isfinite(s).all():
+            bad("finite:hi", "screen of the unit draw at stream position %d is not a finite %dx%d array" % (e, N, N), position=e)
+            return
+        F = numpy.fft.fft2(s) / (N * N)
+        P = (F * F.conj()).real
+        tot = float(P.sum())                                    # = mean of s² (Parseval)
+        top = max(top, tot)
+        # the model's sample for this position (only used to decide whether the layout is the model's)
+        i, j = divmod(e % (N * N), N)
+        model_k = ((j - mid) % N, (i - mid) % N)                # (kx, ky) mod N: column index ↔ fx, row index ↔ fy
+        if tot == 0.0:
+            zero_cols.append((e, model_k))
+            continue
+        w = numpy.unravel_index(int(P.argmax()), P.shape)       # (ky, kx) mod N
+        ky, kx = int(w[0]), int(w[1])
+        pair = P[ky, kx] + (P[(-ky) % N, (-kx) % N] if ((-ky) % N, (-kx) % N) != (ky, kx) else 0.0)
+        if not pair >= (1 - 1e-9) * tot and tot <= 1e-20 * max(psd_of_wave(c, *model_k), psd_of_wave(c, kx, ky)):
+            # rounding residue of a draw that feeds nothing (imaginary part of a self-conjugate sample: sin(π·integer) is 1e-16, not 0,
+            # in FFTs of sizes with a large prime factor): 1e-32 of the power of its sample — a zero column
+            zero_cols.append((e, model_k))
+            continue
+        if not pair >= (1 - 1e-9) * tot:
+            # more than one frequency pair in the screen of ONE draw: a valid implementation could mix draws orthogonally, so
+            # this alone is not a violation of the covariance clause — broken correspondence (the model: one plane wave per draw)
+            chk.broke("correspondence", "ft_phase_screen: the screen of the unit draw at stream position %d is not one plane wave of the "
+                      "%d-grid (the strongest pair ±(%d,%d) holds %.12g of its power) at %s" % (e, N, kx, ky, pair / tot, tag))
+            layout_ok = False
+            continue
+        if {(kx, ky), ((-kx) % N, (-ky) % N)} != {model_k, ((-model_k[0]) % N, (-model_k[1]) % N)}:
+            layout_ok = False                                   # a permuted stream: HOW, not WHAT — go on with the k found
+        selfconj = ((-ky) % N, (-kx) % N) == (ky, kx)
+        want = psd_of_wave(c, kx, ky) * (1.0 if selfconj else 0.5)
+        chk.count("oracle:sparse:column")
+        if want < 1e-280:                                       # underflow range: no relative precision left, only 'negligible'
+            ok = tot <= 1e-270
+        else:
+            ok = abs(tot - want) <= TOL * want
+            track("sparse:column-power", abs(tot - want), TOL * want)
+        if not ok:
+            bad("cov:hi:sparse", "the unit draw at stream position %d gives a plane wave of wave number (%d,%d) with mean square %.12g; "
+                "the spectrum PSD(|k|Δf)·Δf²%s gives %.12g (ratio %.12g)" % (e, ((kx + mid) % N) - mid, ((ky + mid) % N) - mid, tot,
+                                                                         "" if selfconj else "/2", want, tot / want if want else float("inf")),
+                position=e, k=(kx, ky))
+            return
+    for e, mk in zero_cols:
+        selfc = ((-mk[0]) % N, (-mk[1]) % N) == mk
+        if mk == (0, 0) or selfc or psd_of_wave(c, mk[0], mk[1]) <= 1e-290 * max(top, 1e-300):
+            continue                                            # zero frequency, imaginary part of a self-conjugate sample, underflow
+        if layout_ok:
+            bad("cov:hi:sparse:missing-power", "the unit draw at stream position %d gives a screen that is identically zero, but it feeds wave "
+                "number (%d,%d) whose PSD·Δf² is %.6g" % (e, ((mk[0] + mid) % N) - mid, ((mk[1] + mid) % N) - mid, psd_of_wave(c, mk[0], mk[1])),
+                position=e)
+            return
+    # dense draws: superposition, zero draw, zero spatial mean, exact r0 scaling, FFT objects
+    g1, g2 = nprng.normal(size=nd), nprng.normal(size=nd)
+    al, be = chk.rng.uniform(-2, 2), chk.rng.uniform(-2, 2)
+    s1, s2 = hi_screen(ps, c, g1)[0], hi_screen(ps, c, g2)[0]
+    s12 = hi_screen(ps, c, al * g1 + be * g2)[0]
+    amp = float(max(numpy.abs(s1).max(), numpy.abs(s2).max())) + 1e-300
+    err = float(numpy.abs(s12 - (al * s1 + be * s2)).max())
+    track("sparse:linear", err, TOL * amp * (abs(al) + abs(be) + 1))
+    track("sparse:spatial-mean", abs(float(s1.mean())), TOL * amp)
+    if not err <= TOL * amp * (abs(al) + abs(be) + 1):
+        bad("linear:hi", "screen(αg+βg') ≠ α screen(g) + β screen(g') for dense draws (err %.3g of %.3g)" % (err, amp), alpha=al, beta=be)
+    if not float(numpy.abs(hi_screen(ps, c, numpy.zeros(nd))[0]).max()) <= 1e-12 * amp:
+        bad("zero-mean:ensemble:hi", "the screen of the zero draw is not zero")
+    if not abs(float(s1.mean())) <= TOL * amp:
+        bad("zero-mean:spatial:hi", "a screen of dense draws has spatial mean %.3g (amplitude %.3g)" % (float(s1.mean()), amp))
+    for cc in (logu(chk.rng, 0.3, 3.0), 1.0 + 3e-6, 1e3):
+        sc_ = hi_screen(ps, c, g1, r0=cc * c["r0"])[0]
+        err = float(numpy.abs(sc_ - cc ** (-5.0 / 6.0) * s1).max())
+        track("sparse:r0-scaling", err, TOL * cc ** (-5.0 / 6.0) * amp)
+        if not err <= TOL * cc ** (-5.0 / 6.0) * amp:
+            bad("r0-scaling:hi", "screen(c·r0) ≠ c^(-5/6)·screen(r0) for fixed draws, c=%.9g (err %.3g of %.3g)" % (cc, err, cc ** (-5.0 / 6.0) * amp), c=cc)
+    for oname, obj in fft_objects()[:2]:
+        sf_ = hi_screen(ps, c, g1, FFT=obj)[0]
+        if sf_.shape != s1.shape or not float(numpy.abs(sf_ - s1).max()) <= TOL * amp:
+            bad("fft-object:hi", "ft_phase_screen(FFT=%s) differs from the default path" % oname, fft=oname)
+    # N handed over as a small NumPy integer type: N·N = 65536 … does not fit int16 — the screen must not depend on the type of N
+    # (unsigned N and 8-bit pixel sizes: see PARAM_TYPES / param_types — findings fixed by 23d5043)
+    for tname, conv in (("numpy.int16", numpy.int16), ("numpy.int32", numpy.int32)):
+        if N < 2 ** 15 or conv is numpy.int32:
+            st = numpy.asarray(ps.ft_phase_screen(c["r0"], conv(N), c["delta"], c["L0"], c["l0"], seed=FakeGen(g1)), dtype=float)
+            if st.shape != s1.shape or not numpy.array_equal(st, s1):
+                bad("param-type:ft_phase_screen:N-%s" % tname, "ft_phase_screen with N = %s(%d) differs from the call with a Python int" % (tname, N), n_type=tname)
+    if not sh_rows:
+        return
+    nds = probe(chk, sh_screen, ps, c, "ft_sh_phase_screen (injected Generator)", nh + 54, tag)
+    if nds != nh + 54:
+        return
+    g3, g4 = nprng.normal(size=nds), nprng.normal(size=nds)
+    t1, t2 = sh_screen(ps, c, g3)[0], sh_screen(ps, c, g4)[0]
+    t12 = sh_screen(ps, c, al * g3 + be * g4)[0]
+    samp = float(max(numpy.abs(t1).max(), numpy.abs(t2).max())) + 1e-300
+    if not float(numpy.abs(t12 - (al * t1 + be * t2)).max()) <= TOL * samp * (abs(al) + abs(be) + 1):
+        bad("linear:sh", "sh screen(αg+βg') ≠ α screen(g) + β screen(g') for dense draws (err %.3g of %.3g)"
+            % (float(numpy.abs(t12 - (al * t1 + be * t2)).max()), samp), alpha=al, beta=be)
+    for tname, conv in (("numpy.int16", numpy.int16), ("numpy.int32", numpy.int32)):
+        st = numpy.asarray(ps.ft_sh_phase_screen(c["r0"], conv(N), c["delta"], c["L0"], c["l0"], seed=FakeGen(g3)), dtype=float)
+        if st.shape != t1.shape or not float(numpy.abs(st - t1).max()) <= TOL * samp:
+            bad("param-type:ft_sh_phase_screen:N-%s" % tname, "ft_sh_phase_screen with N = %s(%d) differs from the call with a Python int (by %.3g of %.3g)"
+                % (tname, N, float(numpy.abs(st - t1).max()) if st.shape == t1.shape else float("nan"), samp), n_type=tname)
+    if not abs(float(t1.mean())) <= TOL * samp:
+        bad("zero-mean:spatial:sh", "a sub-harmonic screen of dense draws has spatial mean %.3g (amplitude %.3g)" % (float(t1.mean()), samp))
+    cc = logu(chk.rng, 0.3, 3.0)
+    if not float(numpy.abs(sh_screen(ps, c, g3, r0=cc * c["r0"])[0] - cc ** (-5.0 / 6.0) * t1).max()) <= TOL * cc ** (-5.0 / 6.0) * samp:
+        bad("r0-scaling:sh", "sh screen(c·r0) ≠ c^(-5/6)·screen(r0) for fixed draws, c=%.9g" % cc, c=cc)
+    # the first 2N² stream positions give the plain screen (model partition; a difference is HOW)
+    if not float(numpy.abs(sh_screen(ps, c, numpy.concatenate([g1, numpy.zeros(54)]))[0] - s1).max()) <= TOL * amp:
+        chk.broke("correspondence", "with an injected Generator the first 2N² stream positions of ft_sh_phase_screen do not give the "
+                  "ft_phase_screen screen at %s" % tag)
+        return
+    rows = numpy.array(sorted(set([0, N - 1, N * N - 1, mid * N + mid] + [chk.rng.randrange(N * N) for _ in range(sh_rows)])))
+    Llo = numpy.empty((len(rows), 54))
+    for e in range(54):
+        g = numpy.zeros(nds)
+        g[nh + e] = 1.0
+        Llo[:, e] = numpy.asarray(sh_screen(ps, c, g)[0], dtype=float).ravel()[rows]
+    if not numpy.isfinite(Llo).all():
+        bad("finite:sh", "sub-harmonic screen of a unit draw is not finite")
+        return
+    x = (numpy.arange(N) - N / 2.0) * c["delta"]
+    X, Y = numpy.meshgrid(x, x)
+    X, Y = X.ravel(), Y.ravel()
+    Cref = numpy.zeros((len(rows), len(rows)))
+    for p in (1, 2, 3):
+        dfp = 1.0 / (3 ** p * N * c["delta"])
+        for i in (-1, 0, 1):
+            for j in (-1, 0, 1):
+                if i == 0 and j == 0:
+                    continue
+                fx, fy = j * dfp, i * dfp
+                w = float(psd_text(fx * fx + fy * fy, c["r0"], c["L0"], c["l0"]) * dfp * dfp)
+                ph = 2 * numpy.pi * (fx * X + fy * Y)
+                co, si = numpy.cos(ph), numpy.sin(ph)
+                co, si = (co - co.mean())[rows], (si - si.mean())[rows]
+                Cref += w * (numpy.outer(co, co) + numpy.outer(si, si))
+    Clo = Llo @ Llo.T
+    err = float(numpy.abs(Clo - Cref).max())
+    chk.count("oracle:sparse:sh-lo-cov")
+    track("sparse:sh-lo-cov", err, TOL * (float(numpy.abs(Cref).max()) + 1e-300))
+    if not err <= TOL * (float(numpy.abs(Cref).max()) + 1e-300):
+        w = numpy.unravel_index(int(numpy.abs(Clo - Cref).argmax()), Clo.shape)
+        bad("sh:lo-cov", "the covariance of the 54 sub-harmonic draws between pixels %s and %s is %.12g; the von Kármán spectrum on the three "
+            "3×3 grids 1/(3^p N δ), mean removed, gives %.12g" % (divmod(int(rows[w[0]]), N), divmod(int(rows[w[1]]), N), Clo[w], Cref[w]),
+            p=divmod(int(rows[w[0]]), N), q=divmod(int(rows[w[1]]), N))
+
+
+def large_grids(chk, ps, quick, nprng):
+    """sizes the full linear map cannot reach: 2^16 and 2^18 pixels (N = 256, 512; thorough 1024), sizes with a large prime factor
+    beyond 38, 2 mod 4 sizes; the sub-harmonic block at N = 64 / 128 (thorough 256)"""
+    rng = chk.rng
+    big = [(256, 8, 0), (512, 6, 0), (128, 8, 16)] if quick else [(256, 24, 16), (512, 16, 0), (1024, 8, 0), (128, 24, 32), (384, 12, 0)]
+    odd = [(rng.choice([46, 58, 62, 74, 82, 86, 94]), 8, 12), (rng.choice([106, 118, 122, 134, 146, 158, 178, 202, 254, 262]), 8, 0), (64, 8, 12)]
+    if not quick:
+        odd += [(n, 12, 12 if n <= 128 else 0) for n in (46, 58, 62, 74, 82, 86, 94, 106, 118, 122, 134, 146, 158, 178, 202, 254, 262, 514)]
+    for N, npos, shr in big + odd:
+        c = config(rng, N)
+        u = rng.random()
+        if u < 0.3:
+            c["L0"] = rng.choice([1e6, float("inf"), 0.3 * N * c["delta"]])
+        elif u < 0.5:
+            c["l0"] = rng.choice([2.0, 5.0]) * c["delta"]
+        sparse_probe(chk, ps, c, npos, nprng, "large-grid", sh_rows=shr)
+
+
+def extreme_parameters(chk, ps, quick, nprng):
+    """the full linear-map oracle at the edges of the parameter domain: no / enormous / sub-pixel outer scale, vanishing and
+    many-pixel inner scale, r0 and pixel sizes of 1e-4 … 1e4 (all > 0; L0 = inf is the customary 'no outer scale')"""
+    inf = float("inf")
+    base = dict(r0=0.15, delta=0.1, L0=10.0, l0=0.01)
+    variants = [dict(L0=inf), dict(L0=1e9), dict(L0=0.005), dict(l0=1e-7), dict(l0=0.6), dict(l0=6.0), dict(r0=1e-4), dict(r0=1e3),
+                dict(delta=1e-6, l0=1e-7), dict(delta=1e4, L0=1e5, l0=10.0), dict(delta=1e4), dict(L0=0.6, l0=0.2)]
+    for k, v in enumerate(variants):
+        N = [4, 6][k % 2] if quick else chk.rng.choice([4, 6, 8, 10])
+        c = dict(base, N=N, **v)
+        for name in ("r0", "delta"):                           # jitter what the variant does not pin
+            if name not in v:
+                c[name] = c[name] * logu(chk.rng, 0.5, 2.0)
+        chk.count("oracle:extreme-parameters")
+        oracle_config(chk, ps, c, nprng)
+
+
+def near_equal_history(chk, ps, quick, nprng):
+    """call histories a cache keyed on ROUNDED parameters would get wrong: the same grid size with parameters that differ in the
+    4th significant digit / by 1e-5 relative, one parameter at a time, one call after the other in this process — each
+    configuration gets the full linear-map oracle against the spectrum of ITS OWN parameters (outer scale ≈ screen size and
+    inner scale ≈ 2 pixels, so that the covariance is sensitive to each parameter at the 1e-6 level, tolerance 1e-9)"""
+    for N in ([4] if quick else [4, 6, 8]):
+        base = dict(N=N, r0=0.15, delta=0.1, L0=1.0, l0=0.2)
+        seq = [base]
+        for name in ("r0", "L0", "l0", "delta"):
+            seq.append(dict(base, **{name: round(base[name] * 1.0027, 4)}))      # 0.15 -> 0.1504, 1.0 -> 1.0027, …
+            seq.append(dict(base, **{name: base[name] * (1 + 1e-5)}))
+        seq.append(base)
+        for c in seq:
+            chk.count("oracle:near-equal-history")
+            oracle_config(chk, ps, dict(c), nprng)
+
+
+SEED_VALUES = [("0", 0), ("numpy.int64(0)", numpy.int64(0)), ("2^32+5", 2 ** 32 + 5), ("2^53+1", 2 ** 53 + 1), ("2^64+7", 2 ** 64 + 7),
+               ("numpy.int64(7)", numpy.int64(7)), ("numpy.uint64(2^63+3)", numpy.uint64(2 ** 63 + 3)), ("numpy.uint32(9)", numpy.uint32(9)),
+               ("7 (small)", 7)]
+
+
+def seed_classes(chk, ps, quick):
+    """seed VALUES (the generators above only used ints in [1, 2^31)): 0 — falsy —, NumPy integer scalars, seeds beyond 2^32,
+    2^53 and 2^64, SeedSequence / BitGenerator objects, None; on the configuration where re-using the seed's stream for both
+    parts of the sub-harmonic screen is visible (screen 0.8 m, L0 = 1 m).
+      * unit-draw probe of the seed path (patched default_rng): no structure-function value decreases, D_sh − D_hi = D_lo;
+      * the real seed path replays numpy's normal stream of THAT seed through the probed linear map (correspondence);
+      * seed=None gives a non-degenerate ensemble: two calls differ."""
+    c = dict(N=8, r0=0.1, delta=0.1, L0=1.0, l0=0.01)
+    N, nh = 8, 128
+    tag = "N=8 r0=0.1 delta=0.1 L0=1 l0=0.01"
+    L, _ = columns(hi_screen, ps, c, nh)
+    Ls, _ = columns(sh_screen, ps, c, nh + 54)
+    scale = float(numpy.abs(Ls).max()) + 1e-300
+    Dh = sf(L @ L.T)
+    Dlo = sf(lo_cov_reference(c))
+    for name, sv in SEED_VALUES:
+        chk.oracle_cases += 1
+        chk.count("oracle:seed-class")
+        chk.case(("seed-class", name))
+        G, gen = stream_length(lambda p, cc, g: sh_screen_intseed(p, cc, g, seed_value=sv), ps, c)
+        if gen.foreign or G > 4 * (nh + 54):
+            chk.broke("correspondence", "ft_sh_phase_screen(seed=%s) cannot be probed with unit draws at %s" % (name, tag))
+            continue
+        M, _ = columns(lambda p, cc, g: sh_screen_intseed(p, cc, g, seed_value=sv), ps, c, G)
+        Dm = sf(M @ M.T)
+        dscale = float(numpy.abs(Dm).max()) + 1e-300
+        if (Dm - Dh).min() < -TOL * dscale:
+            w = numpy.unravel_index((Dm - Dh).argmin(), Dm.shape)
+            chk.fail("sh-intseed:sf-decrease:seed-class", "seed=%s: a structure-function value decreases when sub-harmonics are added: pixels "
+                     "%s,%s D_sh=%.9g < D_hi=%.9g at %s" % (name, divmod(int(w[0]), N), divmod(int(w[1]), N), Dm[w], Dh[w], tag),
+                     dict(c, seed=name, p=divmod(int(w[0]), N), q=divmod(int(w[1]), N)))
+        elif numpy.abs((Dm - Dh) - Dlo).max() > TOL * dscale:
+            chk.fail("sh-intseed:cross-power:seed-class", "seed=%s: D_sh − D_hi differs from the structure function of the low-frequency part "
+                     "(max err %.3g of %.3g) at %s" % (name, float(numpy.abs((Dm - Dh) - Dlo).max()), dscale, tag), dict(c, seed=name))
+        # the real path: numpy's stream of that seed through the probed maps
+        for fname, mat in (("ft_phase_screen", L), ("ft_sh_phase_screen", Ls)):
+            f = getattr(ps, fname)
+            forms = [(name, sv)]
+            if isinstance(sv, int):
+                forms += [("SeedSequence(%s)" % name, numpy.random.SeedSequence(sv)), ("PCG64(%s)" % name, numpy.random.PCG64(sv))]
+            for fn_, form in forms:
+                want = mat @ numpy.random.default_rng(sv).normal(size=mat.shape[1])
+                got = numpy.asarray(f(*_args(c), seed=form), dtype=float)
+                chk.count("oracle:seed-class:replay")
+                if got.shape == (N, N):
+                    track("seed-class:replay", float(numpy.abs(got.ravel() - want).max()), TOL * scale * mat.shape[1])
+                if got.shape != (N, N) or not float(numpy.abs(got.ravel() - want).max()) <= TOL * scale * mat.shape[1]:
+                    chk.broke("correspondence", "%s(seed=%s) is not numpy's normal stream of that seed through the probed linear map at %s "
+                              "(the seed is not handed to numpy.random.default_rng as given?)" % (fname, fn_, tag))
+    for fname in ("ft_phase_screen", "ft_sh_phase_screen"):
+        f = getattr(ps, fname)
+        for form, kw in (("seed=None", dict(seed=None)), ("no seed argument", {})):
+            a, b = numpy.asarray(f(*_args(c), **kw), dtype=float), numpy.asarray(f(*_args(c), **kw), dtype=float)
+            chk.oracle_cases += 1
+            chk.case(("seed-none", fname, form))
+            if a.shape != (N, N) or not numpy.isfinite(a).all() or numpy.array_equal(a, b):
+                chk.fail("seed-none:degenerate:%s" % fname, "%s with %s returns %s: the ensemble over the generator's draws is a single screen"
+                         % (fname, form, "the same screen twice" if a.shape == (N, N) and numpy.isfinite(a).all() else "a non-finite / misshapen screen"),
+                         dict(c, fn=fname, form=form))
+
+
+def call_histories(chk, ps, quick, nprng):
+    """what a caller does between two screens: ONE Generator object for several screens (each call continues the stream, plain and
+    sub-harmonic interleaved), the same arguments again, FFT / seed passed positionally, parameter arrays (0-d, read-only) re-used
+    after a call (and not modified by it)"""
+    for it in range(2 if quick else 12):
+        N = chk.rng.choice([4, 6, 8, 10, 12])
+        c = config(chk.rng, N)
+        nh, ns = 2 * N * N, 2 * N * N + 54
+        tag = "N=%d r0=%.6g delta=%.6g L0=%.6g l0=%.6g" % (N, c["r0"], c["delta"], c["L0"], c["l0"])
+        plan = [chk.rng.choice(["hi", "sh"]) for _ in range(4)] + ["hi", "sh"]
+        g = nprng.normal(size=sum(nh if k == "hi" else ns for k in plan))
+        gen = FakeGen(g)
+        at = 0
+        chk.oracle_cases += 1
+        chk.count("oracle:history:generator-reuse")
+        chk.case(("history", "generator-reuse", N, tuple(plan), repr(sorted(c.items()))))
+        for step, k in enumerate(plan):
+            n = nh if k == "hi" else ns
+            f = ps.ft_phase_screen if k == "hi" else ps.ft_sh_phase_screen
+            got = numpy.asarray(f(*_args(c), seed=gen), dtype=float)
+            want = (hi_screen if k == "hi" else sh_screen)(ps, c, g[at:at + n])[0]
+            if gen.pos != at + n:
+                chk.broke("correspondence", "call %d (%s) on a shared Generator read %d stream positions, the model %d at %s"
+                          % (step, k, gen.pos - at, n, tag))
+                break
+            at += n
+            if got.shape == want.shape:
+                track("history:generator-reuse", float(numpy.abs(got - want).max()), TOL * (float(numpy.abs(want).max()) + 1e-300))
+            if got.shape != want.shape or not float(numpy.abs(got - want).max()) <= TOL * (float(numpy.abs(want).max()) + 1e-300):
+                chk.fail("history:generator-reuse", "call %d of %s on ONE Generator object (%s) is not the screen of the next %d draws of its "
+                         "stream: max difference %.3g of %.3g at %s" % (step, plan, "ft_phase_screen" if k == "hi" else "ft_sh_phase_screen", n,
+                                                                      float(numpy.abs(got - want).max()) if got.shape == want.shape else float("nan"),
+                                                                      float(numpy.abs(want).max()), tag), dict(c, plan=plan, step=step))
+                break
+        # positional FFT and seed, and the same arguments again
+        g1 = nprng.normal(size=ns)
+        for k, f, fn in (("hi", ps.ft_phase_screen, hi_screen), ("sh", ps.ft_sh_phase_screen, sh_screen)):
+            want = fn(ps, c, g1)[0]
+            again = fn(ps, c, g1)[0]
+            posl = numpy.asarray(f(c["r0"], c["N"], c["delta"], c["L0"], c["l0"], None, FakeGen(g1)), dtype=float)
+            posf = numpy.asarray(f(c["r0"], c["N"], c["delta"], c["L0"], c["l0"], numpy.fft.ifft2, FakeGen(g1)), dtype=float)
+            chk.count("oracle:history:repeat")
+            if not numpy.array_equal(want, again):
+                chk.fail("history:repeat:%s" % k, "two calls with the same arguments and the same draws give different screens at %s" % tag, dict(c, fn=k))
+            if not (numpy.array_equal(posl, want) and float(numpy.abs(posf - want).max()) <= TOL * float(numpy.abs(want).max())):
+                chk.fail("history:positional:%s" % k, "FFT and seed passed positionally (6th and 7th argument) do not give the screen of the keyword "
+                         "call at %s" % tag, dict(c, fn=k))
+            # parameter arrays: 0-d float64 arrays (one writable set, one read-only), used for two calls in a row
+            for ro in (False, True):
+                arrs = {n_: numpy.array(float(c[n_])) for n_ in ("r0", "delta", "L0", "l0")}
+                for a in arrs.values():
+                    a.flags.writeable = not ro
+                try:
+                    o1 = numpy.asarray(f(arrs["r0"], N, arrs["delta"], arrs["L0"], arrs["l0"], seed=FakeGen(g1)), dtype=float)
+                    o2 = numpy.asarray(f(arrs["r0"], N, arrs["delta"], arrs["L0"], arrs["l0"], seed=FakeGen(g1)), dtype=float)
+                except Exception as ex:
+                    chk.fail("history:param-array:%s:raises" % k, "%s with %s 0-d array parameters raises %r at %s"
+                             % (f.__name__, "read-only" if ro else "writable", ex, tag), dict(c, fn=k, read_only=ro))
+                    continue
+                changed = [n_ for n_ in arrs if float(arrs[n_]) != float(c[n_])]
+                if changed or not numpy.array_equal(o1, o2) or not float(numpy.abs(o1 - want).max()) <= TOL * float(numpy.abs(want).max()):
+                    chk.fail("history:param-array:%s" % k, "%s with 0-d array parameters used for two calls in a row: %s at %s"
+                             % (f.__name__, "the call changed the caller's %s" % changed if changed else
+                                "the second call differs from the first" if not numpy.array_equal(o1, o2) else "differs from the call with floats", tag),
+                             dict(c, fn=k, read_only=ro))
+
+
+def entry_points(chk, ps, nprng):
+    """every public name of the two functions is the function checked above (or at least gives its screens)"""
+    import aotools
+    import aotools.turbulence
+    c = dict(N=6, r0=0.12, delta=0.07, L0=4.0, l0=0.02)
+    g = nprng.normal(size=2 * 36 + 54)
+    for name in ("ft_phase_screen", "ft_sh_phase_screen"):
+        base = getattr(ps, name)
+        want = numpy.asarray(base(*_args(c), seed=FakeGen(g)), dtype=float)
+        for modname, mod in (("aotools", aotools), ("aotools.turbulence", aotools.turbulence)):
+            chk.oracle_cases += 1
+            chk.case(("entry-point", modname, name))
+            f = getattr(mod, name, None)
+            if f is None:
+                chk.broke("correspondence", "%s.%s does not exist any more" % (modname, name))
+            elif f is not base:
+                got = numpy.asarray(f(*_args(c), seed=FakeGen(g)), dtype=float)
+                if got.shape != want.shape or not numpy.array_equal(got, want):
+                    chk.fail("entry-point:%s.%s" % (modname, name), "%s.%s is another function than aotools.turbulence.phasescreen.%s and gives "
+                             "another screen for the same draws" % (modname, name, name), dict(c, fn=name, module=modname))
+
+
 def param_types(chk, ps, quick):
     """r0, delta, L0, l0 given as Python ints / NumPy scalars (and N as a NumPy integer) denote the same real numbers: the
     screen must be the one obtained with Python floats"""
@@ -625,7 +1046,8 @@ def param_types(chk, ps, quick):
                     chk.case(("param-type", fname, intseed, tname, N, repr(sorted((k, float(v)) for k, v in a.items()))),
                              sample={"fn": fname, "type": tname, "N": N, **{k: float(v) for k, v in a.items()}} if it == 0 and intseed else None)
                     rep = dict(fn=fname, type=tname, N=N, int_seed=intseed, **{k: float(v) for k, v in a.items()})
-                    for what, nn in (("", N), (" and N a numpy.int64", numpy.int64(N))):
+                    for what, nn in (("", N), (" and N a numpy.int64", numpy.int64(N)), (" and N a numpy.uint8", numpy.uint8(N)),
+                                     (" and N a numpy.uint64", numpy.uint64(N))):
                         try:
                             s = call(a["r0"], nn, a["delta"], a["L0"], a["l0"])
                         except Exception as ex:
@@ -726,6 +1148,13 @@ def run(chk):
                 "covariance (C_sh − C_hi vs the 24 sub-harmonic frequencies), parameters as int / NumPy scalars (1e-9; float32 scalars 1e-5); "
                 "L is taken with respect to the generator STREAM (normal and standard_normal, any call shapes): stream length / order / "
                 "method differences from the model are reported as broken correspondence, never as violations; "
+                "round 5: sparse unit-draw probe on grids the full map cannot reach (N = 256, 512, thorough 1024; sizes with prime factors "
+                "23 … 257; sub-harmonic block at N = 64 … 128, thorough 256): each sampled stream position must give ONE plane wave of the grid "
+                "whose mean square is PSD(|k|Δf)Δf²/2 (1e-9 relative; observed 1e-14), the 54 sub-harmonic draws the 24-frequency covariance on "
+                "sampled pixels; full oracle at the edges of the parameter domain (L0 = inf / 1e9 / sub-pixel, l0 = 1e-7 … 60 pixels, r0 and "
+                "pixel sizes 1e-4 … 1e4) and on sequences of configurations that differ in the 4th digit / by 1e-5 in one parameter; seed values "
+                "0, NumPy integers, > 2^32, > 2^53, > 2^64, SeedSequence / BitGenerator, None; one Generator object for several screens; "
+                "positional FFT / seed; parameter arrays re-used; N as numpy.int16 / int32; package-level names; "
                 "distinct = distinct (op, N, draws, parameters)")
     chk.assumptions = [
         "linear-Gaussian bridge: for i.i.d. N(0,1) draws g the covariance of L·g is L·Lᵀ (ensemble covariance is read as Σ_e φ_e(p)φ_e(q))",
@@ -745,6 +1174,12 @@ def run(chk):
         "zero denominator); outside it Python raises / returns nan and nothing is claimed",
         "the screen is probed as a function of the stream returned by Generator.normal / Generator.standard_normal; code that drew Gaussians "
         "by another route (uniforms + Box-Muller, RandomState, …) is reported as broken correspondence (cannot be probed), not as a violation",
+        "the sparse probe of large grids (round 5) is invariant under permutations and sign flips of the generator stream only: a screen of "
+        "ONE unit draw that is not one plane wave of the grid is reported as broken correspondence (an implementation mixing its draws "
+        "orthogonally would have the same covariance), a plane wave of the wrong power as a violation; an identically zero screen counts as a "
+        "violation only when every other sampled position agreed with the model's stream layout",
+        "seed=None must give two different screens on two calls (a non-degenerate ensemble); how an int seed is turned into a stream "
+        "(numpy.random.default_rng(seed) as given) is correspondence, not property",
         "parameters of type numpy.float32 are only required to reproduce the double-precision screen to 1e-5 (ft_sh_phase_screen does not "
         "cast r0, L0, l0 to float as ft_phase_screen does: the sub-harmonic part is then evaluated partly in single precision, observed 3e-8)",
     ]
@@ -785,4 +1220,14 @@ def run(chk):
         oracle_config(chk, ps, config(chk.rng, N), nprng, do_sh=False)
     grid_scan(chk, ps, quick)
     param_types(chk, ps, quick)
+    # round 5 (generator audit): input classes and call histories the sections above never produce
+    WORST.clear()
+    large_grids(chk, ps, quick, nprng)
+    extreme_parameters(chk, ps, quick, nprng)
+    near_equal_history(chk, ps, quick, nprng)
+    seed_classes(chk, ps, quick)
+    call_histories(chk, ps, quick, nprng)
+    entry_points(chk, ps, nprng)
+    chk.notes.append("round-5 sections: worst observed value as a fraction of its tolerance: %s"
+                     % {k: float("%.2e" % v) for k, v in sorted(WORST.items())})
     numeric_clauses(chk, ps, quick)
